@@ -160,8 +160,8 @@ def _show(total: Dict[str, bool]) -> str:
     return " & ".join(("" if v else "not ") + f"({k})" for k, v in total.items())
 
 
-def judge_table(ctx: Ctx, rule: str, fi: FunctionInfo, construct: str, decs, atoms, spec, outcome, dont_care=(), node=None) -> None:
-    v, u = check_table(decs, atoms, spec, outcome, dont_care)
+def judge_table(ctx: Ctx, rule: str, fi: FunctionInfo, construct: str, decs, atoms, spec, outcome, dont_care=(), node=None, equiv=None, strict_foreign: bool = True) -> None:
+    v, u = check_table(decs, atoms, spec, outcome, dont_care, equiv=equiv, strict_foreign=strict_foreign)
     if v:
         ctx.bad(rule, fi, construct, "; ".join(v[:3]), node=node or fi.node)
     elif u:
